@@ -164,6 +164,12 @@ Definition run_limit (args : list Z) : list Z :=
 Fixpoint triples (l : list Z) : list (Z * Z * Z) :=
   match l with a :: b :: c :: r => (a, b, c) :: triples r | _ => [] end.
 Definition enc_call (c : list N * N) : list Z := Z.of_N (snd c) :: Z.of_nat (length (fst c)) :: ns_to_zs (fst c).
+(* the scheduling state as the snapshot hook reports it: configured priorities (highest first), then any other priority
+   with items still in flight (highest first): (priority, actual, strategic) *)
+Definition enc_snapshot (ps : list N) (act strat : dist) : list Z :=
+  let extra := sort_desc (map fst (filter (fun kv => andb (negb (N.eqb (snd kv) 0)) (negb (existsb (N.eqb (fst kv)) ps))) act)) in
+  let rows := ps ++ extra in
+  Z.of_nat (length rows) :: flat_map (fun p => [Z.of_N p; Z.of_N (get act p); Z.of_N (get strat p)]) rows.
 Fixpoint run_ops (base : Divider) (fuel : nat) (sm : psim) (ops : list (Z * Z * Z)) : list Z * psim :=
   match ops with
   | [] => ([], sm)
@@ -172,7 +178,8 @@ Fixpoint run_ops (base : Divider) (fuel : nat) (sm : psim) (ops : list (Z * Z * 
       let '(sm1, (tp, tx)) := apply_op base fuel sm code arg (negb (stl =? 0)) in
       let seg := rev (firstn (length (calls (ps_st sm1)) - before) (calls (ps_st sm1))) in
       let '(rest, smf) := run_ops base fuel sm1 r in
-      ([Z.of_N tp; Z.of_N tx; Z.of_nat (length (outq (ps_st sm1))); Z.of_nat (length seg)] ++ flat_map enc_call seg ++ rest, smf)
+      ([Z.of_N tp; Z.of_N tx; Z.of_nat (length (outq (ps_st sm1))); Z.of_nat (length seg)] ++ flat_map enc_call seg ++
+       enc_snapshot (prios (ps_st sm1)) (actual (ps_st sm1)) (strategic (ps_st sm1)) ++ rest, smf)
   end.
 Fixpoint prefill (s : st) (nxt : N) (ops : list (Z * Z * Z)) : st * N * list (Z * Z * Z) :=
   match ops with
@@ -233,7 +240,8 @@ Fixpoint run_ops1 (fixed : bool) (base : Divider) (fuel : nat) (known : list nat
       let known1 := if orb (code =? 1) (orb (code =? 2) (code =? 8)) then insert_nat (Z.to_nat a) known else known in
       let '(rest, smf) := run_ops1 fixed base fuel known1 sm1 r in
       ([Z.of_N tp; Z.of_N tx; Z.of_nat (length (Prio1.outq s1)); (if is_done1 s1 then 0 else Z.of_nat (length (Prio1.cmds s1))); bool_z (is_done1 s1);
-        Z.of_nat (length seg)] ++ flat_map enc_call seg ++ enc_consumed_ids s1 known1 ++ rest, smf)
+        Z.of_nat (length seg)] ++ flat_map enc_call seg ++ enc_consumed_ids s1 known1 ++
+        enc_snapshot (Prio1.prios s1) (Prio1.actual s1) (Prio1.strategic s1) ++ rest, smf)
   end.
 Definition run_prio1 (args : list Z) : list Z :=
   match args with
@@ -245,8 +253,8 @@ Definition run_prio1 (args : list Z) : list Z :=
       let base := divider_of kind in
       let fx := negb (fixed =? 0) in
       let s0 := Prio1.init_state (fun _ => base) cfg (Z.to_N h) (fun ch => Nat.ltb ch 1000) (Z.to_N ocap) in
-      let s1 := Prio1Sim.sched_run fx (fun _ => base) (Z.to_nat fuel) false None s0 in
-      let '(out, smf) := run_ops1 fx base (Z.to_nat fuel) (fold_right insert_nat [] (map snd cfg)) (Prio1Sim.mkPsim s1 [] 1 None) (quads ops) in
+      let '(s1, amb0) := Prio1Sim.sched_run fx (fun _ => base) (Z.to_nat fuel) false None false s0 in
+      let '(out, smf) := run_ops1 fx base (Z.to_nat fuel) (fold_right insert_nat [] (map snd cfg)) (Prio1Sim.mkPsim s1 [] 1 None amb0) (quads ops) in
       let fin := match Prio1.pcs (Prio1Sim.ps_st smf) with
                  | Prio1.Done None => [1; 0]
                  | Prio1.Done (Some (Prio1.EDiv DividerBad)) => [1; 1]
@@ -254,7 +262,7 @@ Definition run_prio1 (args : list Z) : list Z :=
                  | Prio1.Done (Some (Prio1.EDiv SumOverflow)) => [1; 3]
                  | _ => [0; -1]
                  end in
-      0 :: out ++ fin
+      0 :: out ++ fin ++ [bool_z (Prio1Sim.ps_amb smf)]
   | _ => [-99]
   end.
 
